@@ -300,5 +300,8 @@ pub fn rows() -> Vec<(&'static str, crate::rt::Ops)> {
         ("@pbk::BoolValue", ops::<bool>()),
         ("@pbk::DoubleValue", ops::<f64>()),
         ("@pbk::UInt32Value", ops::<u32>()),
+        // the same wrappers under names the value generator fills with negative zero
+        ("@pbk::NzDoubleValue", ops::<f64>()),
+        ("@pbk::NzFloatValue", ops::<f32>()),
     ]
 }
